@@ -83,6 +83,15 @@ Maxl(S) == {c \in S : ~\E d \in S : c \in U[d].prev}          \* maximal element
 \* latest snapshot common to the base chains of all heads
 CSnap(H) == LET common == {s \in Ids : \A h \in H : s \in Chain(h)} IN IF common = {} THEN 0 ELSE Max(common)
 
+\* treeBuilder.lowestSnapshots + commonSnapshot: cache = payload changes not yet attached, heads = announced heads
+\* among them, root = our current root
+RECURSIVE LowestKnown(_, _)
+LowestKnown(s, cache) == IF s \in cache /\ U[s].base # 0 THEN LowestKnown(U[s].base, cache) ELSE s
+BuilderRoot(cache, heads, root) ==
+    LET snaps == {LowestKnown(U[h].base, cache) : h \in heads} \cup {root}
+        common == {s \in Ids : \A x \in snaps : s \in Chain(x)}
+    IN IF common = {} THEN 0 ELSE Max(common)
+
 (* ------------------------------------------------------------------ durable state *)
 NoHead == [on |-> FALSE, hs |-> {}, cs |-> 0]
 EmptyDisk == [schema |-> {}, space |-> FALSE, heads |-> [t \in Trees |-> NoHead],
@@ -184,7 +193,7 @@ FromDisk(d, t) ==
 FreshDeferred(t) == [st |-> "open", hs |-> {t}, root |-> t, att |-> {t}, mx |-> 1, def |-> "pending"]
 
 NoOp == [kind |-> "none", t |-> 0, snap |-> FALSE, new |-> <<>>, set |-> {}, i |-> 0, prog |-> <<>>, pc |-> 0,
-         retry |-> FALSE, fat |-> 0, fate |-> "ok", m0 |-> ClosedTree]
+         retry |-> FALSE, fat |-> 0, fate |-> "ok"]
 Idle == op.kind = "none"
 
 (* ------------------------------------------------------------------ projections for the replay harness *)
@@ -303,7 +312,7 @@ StartLocal(t, snap, retry) ==
           IN /\ c \notin m.att
              /\ U' = [U EXCEPT ![c] = [on |-> TRUE, tree |-> t, prev |-> m.hs, base |-> m.root, snap |-> snap, loc |-> TRUE,
                                        acl |-> mem.acl]]
-             /\ Start([Base("local", t, retry) EXCEPT !.snap = snap, !.new = <<<<c, o>>>>, !.m0 = m],
+             /\ Start([Base("local", t, retry) EXCEPT !.snap = snap, !.new = <<<<c, o>>>>],
                       AddProg(t, <<<<c, o>>>>, m2.hs, m2.root, m.def),
                       [mem EXCEPT !.tr[t] = m2])
 
@@ -338,9 +347,15 @@ StartRemote(t, P, retry) ==
         rebuild == \E c \in unknown : U[c].base # m.root /\ U[c].base \notin m.att /\ U[c].base \notin snapsNew
         new == IF rebuild THEN unknown \ stored ELSE unknown
         cand == IF rebuild THEN stored \cup new ELSE m.att \cup new
-        hs2 == Maxl(cand)
-        root2 == IF new = {} THEN m.root ELSE CSnap(hs2)
+        \* Without a rebuild every attached change is a possible root and the tree is reduced to the common snapshot
+        \* of its heads.  A rebuild starts from the snapshot the tree builder picks - the common snapshot of our
+        \* root and, for every announced head that is new, the first snapshot on its base chain that is not itself
+        \* part of the payload - and is NOT reduced afterwards (rebuildFromStorage clears the possible roots).
+        root2 == IF new = {} THEN m.root
+                 ELSE IF rebuild THEN BuilderRoot(unknown, Maxl(P) \cap unknown, m.root)
+                 ELSE CSnap(Maxl(cand))
         att2 == {c \in cand : Anc(root2, c)}
+        hs2 == Maxl(att2)
         news == Ordered(new, m.mx)
         m2 == IF new = {} THEN m ELSE [m EXCEPT !.hs = hs2, !.root = root2, !.att = att2, !.mx = m.mx + Cardinality(new)]
     IN /\ mem.space /\ m.st = "open"
@@ -348,7 +363,7 @@ StartRemote(t, P, retry) ==
        \* only attachable payloads (missing ancestors are the sync protocol's business, property C01)
        /\ \A c \in new : U[c].prev \subseteq (new \cup m.att \cup (IF rebuild THEN stored ELSE {}))
        /\ root2 # 0
-       /\ Start([Base("remote", t, retry) EXCEPT !.set = P, !.new = news, !.m0 = m],
+       /\ Start([Base("remote", t, retry) EXCEPT !.set = P, !.new = news],
                 AddProg(t, news, m2.hs, m2.root, m.def),
                 [mem EXCEPT !.tr[t] = m2])
        /\ UNCHANGED U
